@@ -56,9 +56,12 @@ def solve(A, b, Delta):
     #print('\nberror = ', bError)
 
     # consider an out if it doesnt converge, or use a better initial guess, or bound the lam from below and above.
-    while np.abs(bError) > 1e-9:
+    for _ in range(100):
+        if not np.abs(bError) > 1e-9: break
         qNormSq = qnorm_squared(bvv, sig+lam)
-        lam += (pNormSq / qNormSq) * bError
+        lamNew = lam + (pNormSq / qNormSq) * bError
+        if lamNew == lam: break # the Newton correction is below the resolution of lam
+        lam = lamNew
         pNormSq = pnorm_squared(bvv, sig+lam)
         pNorm = np.sqrt(pNormSq)
         bError = (pNorm - Delta)/Delta
